@@ -254,7 +254,7 @@ fn word_strategy() -> impl Strategy<Value = u32> {
 }
 
 pub fn run(run: &mut Run) -> PResult {
-    run.rule = "52 cards + blank for the per-card clause; every five-card subset under all 24 relabellings of the four suits (applied by the model) and 1..3 applications of the crate's container shift, every six-card subset and (quick: 1-in-8 stratum / thorough: every) seven-card subset under the three non-trivial shifts, values also compared with the model ordinal; proptest hands of 2..7 slots over cards, blank and arbitrary words for the slot-wise clause. Non-trivial = relabelled hands (all) / hands of the slot-wise clause containing a blank, a repeat or a non-card word; distinct = distinct subsets / word arrays".into();
+    run.rule = "52 cards + blank for the per-card clause; every five-card subset under all 24 relabellings of the four suits (applied by the model) and 1..3 applications of the crate's container shift, every six-card subset and (quick: 1-in-8 stratum / thorough: every) seven-card subset, ascending and descending, under the three non-trivial shifts, values also compared with the model ordinal; proptest hands of 2..7 slots over cards, blank and arbitrary words for the slot-wise clause. Non-trivial = relabelled hands (all) / hands of the slot-wise clause containing a blank, a repeat or a non-card word; distinct = distinct subsets / word arrays".into();
     run.assume("for non-card words the container shift is compared with the crate's own per-word shift (the statement defines shifting only for cards and blank)");
     super::regress::replay_dir(run, "C08", check_case)?;
     let mut n = 0;
@@ -266,6 +266,14 @@ pub fn run(run: &mut Run) -> PResult {
         }
     }
     run.generator("52 cards + blank, per-card shift", "exhaustive", Some(53), 53, 53, "shift = next suit, same rank; four shifts = identity; blank stays blank");
+    if !run.is_twin() {
+        let items: Vec<u32> = card::DECK.iter().copied().chain([0u32]).collect();
+        let hit = engine::ordered_pairs(&items, &|a| { std::hint::black_box(a.shift_suit()); }, &|b| card_clauses(*b));
+        run.generator("all ordered pairs of cards / blank shifted back to back", "exhaustive (histories of length 2)", Some(53 * 53), 53 * 53, 53 * 52, "");
+        if let Some((a, b, m)) = hit {
+            return run.violation("C08.sequence", &format!("{} ; {}", card::render(items[a]), card::render(items[b])), json!({"words": [engine::hex(items[a]), engine::hex(items[b])]}), &format!("after shifting {}: {}", card::render(items[a]), m));
+        }
+    }
     run.sample(json!({"card": "A♠", "shifted": card::render(card::DECK[0].shift_suit()), "four_shifts": card::render(card::DECK[0].shift_suit().shift_suit().shift_suit().shift_suit())}));
     hands::<5>(run, 1)?;
     hands::<6>(run, 1)?;
@@ -300,6 +308,14 @@ pub fn run(run: &mut Run) -> PResult {
 pub fn check_case(clause: &str, case: &Value) -> Result<(), String> {
     match clause {
         "C08.card" => card_clauses(engine::parse_word(&case["word"])?),
+        "C08.sequence" => {
+            std::hint::black_box(card::DECK[17].shift_suit());
+            let ws = engine::parse_words(&case["words"])?;
+            for w in &ws[..ws.len() - 1] {
+                std::hint::black_box(w.shift_suit());
+            }
+            card_clauses(ws[ws.len() - 1])
+        }
         "C08.slotwise" => slotwise(&engine::parse_words(&case["words"])?),
         "C08.invariance" => {
             let ws = engine::parse_words(&case["words"])?;
